@@ -54,6 +54,16 @@ def specs(quick):
     out["BIG-MM1-60-12-12/H3/EL"] = (big, S.H3(size=sized(big, 0.3), rsize=sized(big, 0.02)), "EL", 4 if quick else 30)
     if not quick:
         out["BIG-MM1-60-12-12/H3/E"] = (big, S.H3(size=sized(big, 0.3), rsize=sized(big, 0.02)), "E", 12)
+    # throughput-bound 3-level hierarchies with Reg keeping everything (templates selected by
+    # index in quick; all templates in thorough)
+    p36 = S.Arch(nodes=(S.Mem("Main", S.INF, 100, 100, 0.5, 0.5, keep="~Intermediates", may_keep="All"),
+                        S.Mem("Buf", 8000, 10, 10, 1, 1, keep="All", may_keep=None),
+                        S.Mem("Reg", 128, 1, 1, S.INF, S.INF, keep="All", may_keep=None), S.Comp("MAC", 1, 1)))
+    out["THR-MM1-36-36-36/H3-keepall/EL"] = (S.MM1(36, 36, 36), p36, "EL", [13, 14, 15, 21] if quick else None)
+    p60 = S.Arch(nodes=(S.Mem("Main", S.INF, 100, 100, 0.25, 0.25, keep="~Intermediates", may_keep="All"),
+                        S.Mem("Buf", 16000, 10, 10, 1, 1, keep="~Main", may_keep="All"),
+                        S.Mem("Reg", 512, 1, 1, S.INF, S.INF, keep="All", may_keep=None), S.Comp("MAC", 1, 1)))
+    out["THR-MM1-60-60-60/H3/EL"] = (S.MM1(60, 60, 60), p60, "EL", [46, 50, 57, 60] if quick else None)
     return out
 
 
@@ -65,7 +75,9 @@ def fixture(sid, quick):
         wl, arch, metric, cap = specs(quick)[sid]
         spec = S.build_spec(arch, wl, S.Knobs(metric))
         jobs = T.template_jobs(spec)
-        if cap:
+        if isinstance(cap, list):
+            jobs = [jobs[i] for i in cap if i < len(jobs)]
+        elif cap:
             from accelforge.frontend.mapping import Loop
 
             def nsym(j):
@@ -79,6 +91,11 @@ def fixture(sid, quick):
 
 def sig(x):
     return float(f"{x:.6g}")
+
+
+def _short(s):
+    import hashlib
+    return hashlib.blake2b(s.encode(), digest_size=4).hexdigest()
 
 
 def check_template(sid, ti, quick):
@@ -131,8 +148,12 @@ def check_template(sid, ti, quick):
         lost = [v for v in exh if v not in impl]
         extra = [v for v in impl if v not in exh]
         fam = "pruning-loses-pareto-point" if lost else "pruning-keeps-point-outside-front"
+        tstr = job.mapping.compact_str()
         viol = {"observed": {"impl_front": impl[:8], "extra": extra[:4]}, "expected": {"front": exh[:8], "lost": lost[:4]},
-                "family": fam, "columns": obj_cols}
+                "family": f"{fam}/{sid}/template-{_short(tstr)}", "columns": obj_cols, "template": tstr,
+                # a finding is identified by the exact (spec, template): another template of the
+                # same spec, or another spec, is a different violation
+                "key": f"C08|{sid}|{tstr}"}
     info = {"assignments": n_all, "valid": n_valid, "front": len(exh), "impl_rows": len(rows),
             "pareto_calls": len(spy), "max_rows_in_pareto_call": max([s[0] for s in spy], default=0),
             "calls_ge_1000": sum(1 for s in spy if s[0] >= 1000),
